@@ -1458,6 +1458,8 @@ class ListNode(SyntaxNodeBase):
                 and isinstance(own[i], ValueNode)
                 and own[i].type == val.type
                 and own[i].value == val.value
+                # the sign of a negatable node is held apart from its value
+                and bool(own[i].is_negative) == bool(val.is_negative)
             ):
                 ret.append(own[i])
             else:
